@@ -174,7 +174,7 @@ Definition eff_tss (x : name_info) : bytes :=
 
 Lemma build_base_form x :
   build_base x = ni_syncer x ++ SEP ++ ni_inst x ++ SEP ++ eff_tss x ++ SEP ++ tail_of (ni_gen x) (ni_extra x).
-Proof. unfold build_base, eff_tss, tail_of. rewrite <- !app_assoc. reflexivity. Qed.
+Proof. unfold build_base, eff_tss, tail_of. rewrite <- ?app_assoc. reflexivity. Qed.
 
 Lemma parse_name_intro n base p0 p1 p2 p3 ex t :
   cut DOT n = Some (base, ext_pbgz) -> split_us base = p0 :: p1 :: p2 :: p3 :: ex ->
@@ -278,16 +278,18 @@ Lemma parse_name_inv n x : parse_name n = Ok x ->
     x = mkNI n base ext_pbgz kind_snapshot p0 p1 p3 p2 t ex.
 Proof.
   unfold parse_name, parse_name_br.
-  destruct (cut DOT n) as [[base ext]|]; [|discriminate].
+  destruct (cut DOT n) as [[base ext]|] eqn:Hc; [|discriminate].
   unfold ext_kind. destruct (beqb ext ext_pbgz) eqn:Hext; [|discriminate].
   apply beqb_eq in Hext. subst ext.
-  destruct (split_us base) as [|p0 [|p1 [|p2 [|p3 ex]]]]; try discriminate.
+  destruct (split_us base) as [|p0 [|p1 [|p2 [|p3 ex]]]] eqn:Hs; try discriminate.
   destruct (Nat.eqb (length p2) 25) eqn:Hl; [|discriminate]. cbn [negb].
   destruct (nth 15 p2 0 =? DASH) eqn:Hd; [|discriminate]. cbn [negb].
-  unfold time_parse. destruct (time_parse_br p2) as [[t|] b]; [|discriminate].
+  destruct (time_parse_br p2) as [[t|] b] eqn:Ht; [|discriminate].
   cbn [fst]. intros H. inversion H; subst.
   exists base, p0, p1, p2, p3, ex, t.
-  apply Nat.eqb_eq in Hl. apply N.eqb_eq in Hd. repeat split; assumption.
+  apply Nat.eqb_eq in Hl. apply N.eqb_eq in Hd.
+  assert (Ht' : time_parse p2 = Some t) by (unfold time_parse; rewrite Ht; reflexivity).
+  repeat split; assumption.
 Qed.
 
 (* ParseName never panics or loops: accepted, or an error *)
@@ -299,7 +301,7 @@ Proof.
   destruct (split_us base) as [|p0 [|p1 [|p2 [|p3 ex]]]]; try (right; reflexivity).
   destruct (negb (Nat.eqb (length p2) 25)); [right; reflexivity|].
   destruct (negb (nth 15 p2 0 =? DASH)); [right; reflexivity|].
-  destruct (time_parse_br p2) as [[t|] b]; [left; eexists; reflexivity|right; reflexivity].
+  destruct (time_parse_br p2) as [[t|] br]; [left; eexists; reflexivity|right; reflexivity].
 Qed.
 
 Lemma rejects_no_dot n : no_dot n = true -> parse_name n = Err EOther.
@@ -330,7 +332,7 @@ Proof.
   destruct (nth 15 p2 0 =? DASH) eqn:Hd; [|reflexivity]. cbn [negb].
   apply Nat.eqb_eq in Hl. apply N.eqb_eq in Hd.
   destruct H as [H|[H|H]]; try contradiction.
-  unfold time_parse in H. destruct (time_parse_br p2) as [o b]. cbn [fst] in H. subst o. reflexivity.
+  unfold time_parse in H. destruct (time_parse_br p2) as [o br]. cbn [fst] in H. subst o. reflexivity.
 Qed.
 
 (* what time.Parse accepts has a date/time part that is a real calendar date and clock time in
@@ -370,13 +372,13 @@ Proof.
   exists y, mo, d, hh, mi, ss, c15, s8.
   split; [subst; reflexivity|].
   pow10. split; [lia|].
+  rewrite app_nil_r in E7.
   unfold frac_split in F. destruct s8 as [|c r].
-  - inversion F; subst. left. exists ns. rewrite app_nil_r in E7. pow10. repeat split; try lia. exact E7.
-  - destruct ((c =? 43) || (c =? 45)) eqn:Sg; inversion F; subst; clear F.
-    + right. exists c, ns. rewrite app_nil_r in E7. pow10. subst r.
+  - injection F as <- <- <- <-. left. exists ns. pow10. repeat split; try lia. exact E7.
+  - destruct ((c =? 43) || (c =? 45)) eqn:Sg; injection F as <- <- <- <-.
+    + right. exists c, ns. pow10. rewrite E7.
       repeat split; try lia.
-      destruct (c =? 45) eqn:C45; [right|left]; lia.
-    + left. exists ns. rewrite app_nil_r in E7. pow10. repeat split; try lia. exact E7.
+    + left. exists ns. pow10. repeat split; try lia. exact E7.
 Qed.
 
 (* ================= BuildName (ParseName n) = n ================= *)
@@ -417,8 +419,8 @@ Proof.
   unfold build_name, build_base. cbn [ni_syncer ni_inst ni_tss ni_gen ni_extra ni_ext ni_ts].
   destruct p2 as [|c p2']; [discriminate|].
   pose proof (join_split base) as J. rewrite Hs in J. cbn [join_us map concat] in J.
-  rewrite <- !app_assoc in J. rewrite <- !app_assoc.
-  rewrite En. rewrite <- J at 2. rewrite <- !app_assoc. reflexivity.
+  rewrite En. change ([DOT] ++ ext_pbgz) with (DOT :: ext_pbgz). f_equal.
+  rewrite <- J. rewrite <- ?app_assoc. reflexivity.
 Qed.
 
 Lemma parse_injective n1 n2 x : parse_name n1 = Ok x -> parse_name n2 = Ok x -> n1 = n2.
@@ -673,3 +675,92 @@ Proof.
   - apply roundtrip_safe; try assumption. unfold instance_id. apply sanitize_safe.
   - repeat split.
 Qed.
+
+(* ================= limits of the claims: counterexamples, each checked by computation ================= *)
+
+Module Limits.
+Import String.
+Definition b (s : string) : bytes := List.map Ascii.N_of_ascii (list_ascii_of_string s).
+Local Open Scope string_scope.
+Definition T0 : Z := 1641092645012345678%Z.   (* 2022-01-02 03:04:05.012345678 UTC *)
+
+(* an extra item may not END in '_' unless it is the last component: "A_" then "B1" comes back as "A", "_B1"
+   (the item satisfies every rule of the NameExtraItem comment) *)
+Example roundtrip_extra_trailing_us_refuted :
+  exists db inst gen t extras,
+    safe db = true /\ safe inst = true /\ safe gen = true /\ (0 <= t < two63z)%Z /\
+    no_sep (List.nth 0 extras nil) = true /\
+    exists x, parse_name (name_of db inst gen t extras) = Ok x /\ ni_extra x <> extras.
+Proof.
+  exists (b "db"), (b "i"), (b "GX"), T0, (b "A_" :: b "B1" :: nil).
+  vm_compute. repeat split; try discriminate. eexists. split; [reflexivity|discriminate].
+Qed.
+
+(* the same for a database name ending in '_': the name is accepted, with the wrong database and instance *)
+Example roundtrip_db_trailing_us_refuted :
+  exists x, parse_name (name_of (b "db_") (b "i") (b "GX") T0 nil) = Ok x /\
+            ni_syncer x = b "db" /\ ni_inst x = b "_i".
+Proof. eexists. vm_compute. repeat split. Qed.
+
+(* "__" inside a component shifts every later field; here the name is then rejected *)
+Example roundtrip_sep_inside_refuted :
+  parse_name (name_of (b "db") (b "a__b") (b "GX") T0 nil) = Err EOther.
+Proof. vm_compute. reflexivity. Qed.
+
+(* a '.' anywhere before the extension: the first dot starts the "extension" *)
+Example roundtrip_dot_refuted :
+  parse_name (name_of (b "d.b") (b "i") (b "GX") T0 nil) = Err EOther /\
+  parse_name (name_of (b "db") (b "host.example.org") (b "GX") T0 nil) = Err EOther.
+Proof. vm_compute. split; reflexivity. Qed.
+
+(* database names outside the safe alphabet: a snapshot of database "a__b", written by an instance
+   whose (sanitised, safe-alphabet) id looks like a timestamp, carries the listing prefix of database
+   "a" AND parses — as a snapshot of "a" from instance "b". The parsed database name is never compared. *)
+Example other_db_unsafe_refuted :
+  exists d d' inst t,
+    d <> d' /\ safe d = true /\ safe inst = true /\ (0 <= t < two63z)%Z /\
+    has_prefix (db_prefix d) (name_of d' inst (b "GX") t nil) = true /\
+    exists x, parse_name (name_of d' inst (b "GX") t nil) = Ok x /\ ni_syncer x = d /\ ni_inst x = b "b".
+Proof.
+  exists (b "a"), (b "a__b"), (b "20240101-000000-000000000"), T0.
+  vm_compute. repeat split; try discriminate. eexists. repeat split.
+Qed.
+
+(* time.Parse tolerates a sign where the fraction starts: such names are accepted although BuildName
+   never writes them, and they sort BEFORE names with an earlier timestamp ('+' < '0') *)
+Example signed_fraction_accepted :
+  exists x, parse_name (b "db__i__20220102-030405-+12345678__GX.pb.gz") = Ok x /\
+            ni_ts x = 1641092645012345678%Z /\ ni_tss x <> format_ts (ni_ts x).
+Proof. eexists. vm_compute. repeat split. discriminate. Qed.
+
+Example signed_fraction_order_refuted :
+  exists n1 n2 x1 x2, parse_name n1 = Ok x1 /\ parse_name n2 = Ok x2 /\
+    ni_syncer x1 = ni_syncer x2 /\ ni_inst x1 = ni_inst x2 /\
+    bcmp n1 n2 = Lt /\ (ni_ts x2 < ni_ts x1)%Z.
+Proof.
+  exists (b "db__i__20220102-030405-+99999999__GX.pb.gz"), (b "db__i__20220102-030405-000000000__GX.pb.gz").
+  eexists. eexists. vm_compute. repeat split.
+Qed.
+
+(* ParseName accepts instants that are not int64 nanoseconds (any year 0000..9999) *)
+Example parse_beyond_int64 :
+  exists x, parse_name (b "db__i__22620411-234716-854775808__GX.pb.gz") = Ok x /\ ni_ts x = two63z.
+Proof. eexists. vm_compute. repeat split. Qed.
+
+(* NameTimestampFromNano reinterprets the uint64 as int64: 2^63 is named 1677-09-21 and sorts first *)
+Example from_nano_wrap_refuted :
+  exists u1 u2, u1 < u2 /\ u2 < two64 /\
+    bcmp (name_timestamp_from_nano u1) (name_timestamp_from_nano u2) = Gt.
+Proof. exists (two63 - 1), two63. vm_compute. repeat split. Qed.
+
+(* the sanitiser is not injective: distinct configured names can share one instance id *)
+Example sanitize_collision :
+  b "host.1" <> b "host_1" /\ sanitize (b "host.1") = sanitize (b "host_1") /\ sanitize (b "host.1") = b "host-1".
+Proof. vm_compute. repeat split. discriminate. Qed.
+
+(* one "-" per rune, not per byte; every invalid byte is a rune of its own *)
+Example sanitize_runes :
+  sanitize (97 :: 195 :: 169 :: 226 :: 130 :: 172 :: 240 :: 159 :: 152 :: 128 :: 255 :: 195 :: 98 :: nil)%N
+  = b "a-----b".
+Proof. vm_compute. reflexivity. Qed.
+End Limits.
